@@ -152,6 +152,18 @@ func (g *Gen) basket() *basketapi.Basket {
 
 // nearBoundaryPut looks for a (basket, batch, holder) whose batch start is within a second of the
 // basket's date criterion evaluated now.
+// QueueBoundaryPuts: the block-time policy has just placed the block on a window boundary; the next n
+// transactions are puts at that boundary (if there still is one when they are generated).
+func (g *Gen) QueueBoundaryPuts(n int) {
+	for i := 0; i < n; i++ {
+		g.script = append(g.script, func() *eng.Tx {
+			g.windowOnly = true
+			defer func() { g.windowOnly = false }()
+			return g.nearBoundaryPut()
+		})
+	}
+}
+
 func (g *Gen) nearBoundaryPut() *eng.Tx {
 	type cand struct {
 		bk    *basketapi.Basket
@@ -161,7 +173,7 @@ func (g *Gen) nearBoundaryPut() *eng.Tx {
 	var cs []cand
 	for _, bk := range g.V.BasketList {
 		c := bk.DateCriteria
-		if c == nil {
+		if c == nil || (g.windowOnly && c.StartDateWindow == nil) {
 			continue
 		}
 		var min time.Time
@@ -313,7 +325,7 @@ func (g *Gen) genPut() *eng.Tx {
 		// the largest holding of an admissible class (very large amounts)
 		var bestKey obs.BalKey
 		for k, bal := range g.V.Balances {
-			if bal.T == nil || h.T == nil {
+			if bal.T == nil || h.T == nil || !g.isActor(k.Addr) {
 				continue
 			}
 			c := bal.T.Cmp(h.T)
@@ -1291,4 +1303,13 @@ func (g *Gen) genBasketTokenMarket() *eng.Tx {
 	bid := g.coin(mk.BankDenom, ask)
 	mf := g.coin(mk.BankDenom, best)
 	return tx(&markettypes.MsgBuyDirect{Buyer: buyer, Orders: []*markettypes.MsgBuyDirect_Order{{SellOrderId: o.Id, Quantity: qty, BidPrice: &bid, DisableAutoRetire: true, MaxFeeAmount: &mf}}})
+}
+
+func (g *Gen) isActor(a string) bool {
+	for _, x := range g.A {
+		if x == a {
+			return true
+		}
+	}
+	return false
 }
